@@ -314,8 +314,15 @@ def run_check(pid, tier):
     ctxmp = mp.get_context('fork')
     with ProcessPoolExecutor(max_workers=procs, mp_context=ctxmp, initializer=_worker_init) as ex:
         futs = [ex.submit(_run_shard, (mod.__name__, s, tier, limit)) for s in shards]
+        stop_early = bool(os.environ.get('VERIF_STOP_ON_FIRST'))      # evaluation aid only (tools/reeval_all.py): the run is then not exhaustive
         for fu in as_completed(futs):
+            if fu.cancelled():
+                continue
             shard, res, err = fu.result()
+            if stop_early and res['viol'] and not all(c in open_classes for c in res['viol']):
+                for f2 in futs:
+                    f2.cancel()
+                extra['stopped_after_first_violation'] += 1
             if err:
                 harness_errors.append((shard, err))
             for k in ('states', 'transitions', 'evals', 'validated', 'nontrivial'):
@@ -418,7 +425,7 @@ def run_check(pid, tier):
         states=tot['states'], transitions=tot['transitions'], traces_validated_against_impl=tot['validated'],
         evaluations=tot['evals'], distinct_nontrivial=tot['nontrivial'],
         rule=info['rule'] + ' Non-trivial: ' + info.get('nontrivial', 'every case'),
-        samples=samples, exhaustive=bool(info.get('exhaustive', True)) and not extra.get('shards_aborted_by_hang')
+        samples=samples, exhaustive=bool(info.get('exhaustive', True)) and not extra.get('stopped_after_first_violation') and not extra.get('shards_aborted_by_hang')
         and not extra.get('shards_skipped_after_repeated_hangs'),
         bounds=info.get('bounds'), shards=len(shards), workers=procs,
         skipped_unspecified=dict(skipped), distinct_outcomes=len(outcomes),
